@@ -106,6 +106,7 @@ def run_case(contract, case, known_classes_disabled=False):
     def mk(path):
         h = Harness(path, loops=contract.loops, contracts=contract.calls, natives=contract.natives,
                     assumed=contract.assumed, dropped=dropped)
+        h.ignore_known = known_classes_disabled      # development: prove the obligations inside the known classes too
         hs.append(h)
         return h
 
